@@ -665,7 +665,8 @@ TxClaim(cfg, s, ev) ==
              p1 == [p0 EXCEPT !.rew = @ % 1000]
              mc == MarketClaim(cfg, w0, ev.creator)
              rp == RepayDebt(cfg, mc.w, ev.creator, <<claim, mc.coin>>)
-             w1 == Send(Send(rp.w, "m_node", ev.creator, rp.coins[1]), "m_market", ev.creator, rp.coins[2])
+             \* storage income that repaid debt moves from the market escrow into the node escrow (collateral)
+             w1 == Send(Send(Send(rp.w, "m_market", "m_node", mc.coin - rp.coins[2]), "m_node", ev.creator, rp.coins[1]), "m_market", ev.creator, rp.coins[2])
          IN Tx(s, SetPledge(cfg, w1, p1))
 
 TxPayAddr(cfg, s, ev) == \* key DIDs only (did:key): x/did UpdatePaymentAddress
@@ -1031,6 +1032,7 @@ Apply(cfg, s, ev) ==
       [] ev.kind = "AddVstorage"    -> TxAddVstorage(cfg, s, ev)
       [] ev.kind = "RemoveVstorage" -> TxRemoveVstorage(cfg, s, ev)
       [] ev.kind = "Claim"          -> TxClaim(cfg, s, ev)
+      [] ev.kind = "Send"           -> (IF ev.amount <= 0 THEN Tx(s, Fail(Work(s), "invalid coins")) ELSE Tx(s, Send(Work(s), ev.creator, ev.acc, ev.amount)))
       [] ev.kind = "PayAddr"        -> TxPayAddr(cfg, s, ev)
       [] ev.kind = "ReportFaults"   -> TxReportFaults(cfg, s, ev)
       [] ev.kind = "RecoverFaults"  -> TxRecoverFaults(cfg, s, ev)
